@@ -159,7 +159,8 @@ def server_strategy():
     from hypothesis import strategies as st
     MUT = ["none", "none", "no-host", "dup-host", "no-upgrade", "upgrade-other", "no-connection", "connection-close", "no-key", "dup-key", "key-short", "key-long",
            "key-badchar", "key-nopad", "no-version", "dup-version", "version-unsupported", "version-garbage", "method", "http10", "bad-request-line", "fragment",
-           "host-port-mismatch", "host-port-garbage", "origin-denied", "dup-protocol", "over-max-connections"]
+           "host-port-mismatch", "host-port-garbage", "origin-denied", "dup-protocol", "over-max-connections",
+           "non-ascii-key", "non-ascii-upgrade", "non-ascii-connection", "non-ascii-version"]
 
     @st.composite
     def case(draw):
@@ -218,10 +219,14 @@ def build_request(c):
         add("Host", host)
     if mut == "upgrade-other":
         add("Upgrade", "h2c")
+    elif mut == "non-ascii-upgrade":
+        add("Upgrade", "websock\xe9t")
     elif mut != "no-upgrade":
         add("Upgrade", r["upgrade"])
     if mut == "connection-close":
         add("Connection", "close")
+    elif mut == "non-ascii-connection":
+        add("Connection", "Upgr\xe4de")
     elif mut != "no-connection":
         add("Connection", r["connection"])
     key = r["key"]
@@ -234,6 +239,9 @@ def build_request(c):
         key = "!" + r["key"][1:]
     elif mut == "key-nopad":
         key = r["key"][:22] + "AA"
+    elif mut == "non-ascii-key":
+        k = r["shuffle"] % 22
+        key = r["key"][:k] + "\xe9" + r["key"][k + 1:]
     if mut != "no-key":
         add("Sec-WebSocket-Key", key)
     if mut == "dup-key":
@@ -245,6 +253,8 @@ def build_request(c):
             ver = "7"
     if mut == "version-garbage":
         ver = c["bad_version"] if c["bad_version"] in ("abc", "", "13.0") else "abc"
+    if mut == "non-ascii-version":
+        ver = "1\xb3"          # (superscript three: str.isdigit() is true for it)
     if mut != "no-version":
         add("Sec-WebSocket-Version", ver)
     if mut == "dup-version":
@@ -424,7 +434,9 @@ def server_side(col, seed, n):
 
 CLIENT_MUT = ["none", "none", "status-200", "status-400", "status-garbage", "http10", "short-status-line", "wrong-digest", "truncated-digest", "no-accept", "dup-accept", "no-upgrade",
               "upgrade-other", "no-connection", "connection-close", "subprotocol-not-requested", "dup-subprotocol-header", "extension-not-offered", "extension-unknown",
-              "non-utf8-header", "non-utf8-reason", "empty-status"]
+              "non-utf8-header", "non-utf8-reason", "empty-status",
+              # octets >= 0x80 inside each element the client has to judge
+              "non-ascii-digest", "non-ascii-digest-tail", "non-ascii-upgrade", "non-ascii-connection", "non-ascii-subprotocol", "non-ascii-extension", "non-ascii-status-code"]
 
 
 def client_side(col, seed, n):
@@ -486,14 +498,18 @@ def run_client_case(c, split):
         mut = c["mut"]
         status = "HTTP/1.1 101 Switching Protocols"
         status = {"status-200": "HTTP/1.1 200 OK", "status-400": "HTTP/1.1 400 Bad", "status-garbage": "HTTP/1.1 abc nope", "http10": "HTTP/1.0 101 Switching Protocols",
-                  "short-status-line": "HTTP/1.1", "empty-status": "", "non-utf8-reason": "HTTP/1.1 101 Sw\xeftching"}.get(mut, status)
+                  "short-status-line": "HTTP/1.1", "empty-status": "", "non-utf8-reason": "HTTP/1.1 101 Sw\xeftching", "non-ascii-status-code": "HTTP/1.1 1\xb2 Switching Protocols"}.get(mut, status)
         H = []
         if mut == "upgrade-other":
             H.append("Upgrade: h2c")
+        elif mut == "non-ascii-upgrade":
+            H.append("Upgrade: websock\xe9t")
         elif mut != "no-upgrade":
             H.append("Upgrade: websocket")
         if mut == "connection-close":
             H.append("Connection: close")
+        elif mut == "non-ascii-connection":
+            H.append("Connection: Upgr\xe4de")
         elif mut != "no-connection":
             H.append("Connection: Upgrade")
         acc = accept_for(key)
@@ -501,6 +517,11 @@ def run_client_case(c, split):
             acc = accept_for(base64.b64encode(b"0123456789abcdef").decode())
         if mut == "truncated-digest":
             acc = acc[:-4]
+        if mut == "non-ascii-digest":
+            k = c.get("seed", 0) % len(acc)
+            acc = acc[:k] + "\xe9" + acc[k + 1:]
+        if mut == "non-ascii-digest-tail":
+            acc = acc + "\xff"
         if mut != "no-accept":
             H.append("Sec-WebSocket-Accept: " + acc)
         if mut == "dup-accept":
@@ -516,6 +537,8 @@ def run_client_case(c, split):
                 near += [req[0][:-1] or "x", req[0] + "x", req[0][1:] or "y", ",".join(req), ", ".join(req), req[0].upper() if req[0].upper() != req[0] else req[0].lower() + "_", req[0].split(".")[0] + "."]
             near = [x for x in near if x and x not in req and x.strip() not in req]
             sent_proto = near[c.get("seed", c.get("pick", 0)) % len(near)] if near else "evil.proto"
+        if mut == "non-ascii-subprotocol":
+            sent_proto = ((c["protocols"][0][:-1] if c["protocols"] else "wamp") + "\xe9")
         if sent_proto:
             H.append("Sec-WebSocket-Protocol: " + sent_proto)
         if mut == "dup-subprotocol-header":
@@ -527,6 +550,8 @@ def run_client_case(c, split):
             H.append("Sec-WebSocket-Extensions: permessage-bzip2")
         elif mut == "extension-unknown":
             H.append("Sec-WebSocket-Extensions: x-foo-bar")
+        elif mut == "non-ascii-extension":
+            H.append("Sec-WebSocket-Extensions: permessage-deflat\xe9" if c["pick"] % 2 else "Sec-WebSocket-Extensions: permessage-deflate; server_max_window_bits=1\xb2")
         elif c["offer_deflate"] and c["pick"] % 2 == 0:
             H.append("Sec-WebSocket-Extensions: permessage-deflate")
         if mut == "non-utf8-header":
